@@ -81,7 +81,44 @@ func init() {
 			}
 			fmt.Fprintf(&sb, "  (%q, %q, %q)%s\n", parts[0], parts[1], parts[2], sep)
 		}
-		sb.WriteString("]\n\nend Litestream.Gen.CkptProtocol\n")
+		sb.WriteString("]\n\n")
+		// The frame arithmetic that decides whether commits raced a RESTART/FULL checkpoint:
+		//   frameSize := <expr>;  preCheckpointFrameN := 0; if <cond> { preCheckpointFrameN = <expr> }
+		ac := &tctx{p: p, fields: map[string]string{}, consts: map[string]string{
+			"db.pageSize": "pageSize", "WALFrameHeaderSize": "24", "WALHeaderSize": "32",
+			"exec.state.lastSyncedWALOffset": "lastSynced", "frameSize": "(frameSize pageSize)",
+		}}
+		var fsExpr, condExpr, nExpr string
+		ast.Inspect(fd.Body, func(n ast.Node) bool {
+			switch x := n.(type) {
+			case *ast.AssignStmt:
+				if len(x.Lhs) == 1 && len(x.Rhs) == 1 {
+					if id, ok := x.Lhs[0].(*ast.Ident); ok && id.Name == "frameSize" && fsExpr == "" {
+						fsExpr, err = (&tctx{p: p, fields: map[string]string{}, consts: map[string]string{"db.pageSize": "pageSize", "WALFrameHeaderSize": "24"}}).nat(x.Rhs[0])
+					}
+				}
+			case *ast.IfStmt:
+				if len(x.Body.List) == 1 {
+					if as, ok := x.Body.List[0].(*ast.AssignStmt); ok && len(as.Lhs) == 1 && len(as.Rhs) == 1 {
+						if id, ok := as.Lhs[0].(*ast.Ident); ok && id.Name == "preCheckpointFrameN" && nExpr == "" {
+							condExpr, err = ac.prop(x.Cond)
+							if err == nil {
+								nExpr, err = ac.nat(as.Rhs[0])
+							}
+						}
+					}
+				}
+			}
+			return err == nil
+		})
+		if err != nil {
+			return "", fmt.Errorf("checkpoint frame arithmetic: %w", err)
+		}
+		if fsExpr == "" || nExpr == "" {
+			return "", fmt.Errorf("checkpoint frame arithmetic: frameSize / preCheckpointFrameN not found in checkpointWithExecutor")
+		}
+		fmt.Fprintf(&sb, "/-- db.go checkpointWithExecutor: `frameSize` -/\ndef frameSize (pageSize : Nat) : Nat := %s\n\n", fsExpr)
+		fmt.Fprintf(&sb, "/-- db.go checkpointWithExecutor: `preCheckpointFrameN` (frames replicated before the checkpoint) -/\ndef preCheckpointFrameN (pageSize lastSynced : Nat) : Nat :=\n  if %s then %s else 0\n\nend Litestream.Gen.CkptProtocol\n", condExpr, nExpr)
 		return sb.String(), nil
 	}
 }
